@@ -1472,16 +1472,22 @@ pub fn gen_history(seed: u64, k: u64, max_events: usize) -> History {
                     "textDocument/references" => rng.pick(&["", "nodecl"][..]).to_string(),
                     _ => String::new(),
                 };
-                let e = Ev::Req {
-                    kind,
-                    file,
-                    line,
-                    col,
-                    extra,
-                    pos_kind,
-                };
+let writer = matches!(kind.as_str(), "textDocument/rename" | "textDocument/formatting" | "textDocument/onTypeFormatting" | "textDocument/codeLens" | "textDocument/completion" | "textDocument/prepareRename");
+                let e = Ev::Req { kind, file: file.clone(), line, col, extra, pos_kind };
                 past_requests.push(e.clone());
                 events.push(e);
+                // a request that might leave something behind is followed at once - no edit in between - by
+                // requests that would see it
+                if writer && rng.chance(1, 2) {
+                    for _ in 0..rng.range(1, 3) {
+                        let kind2 = rng.pick(&["textDocument/completion", "textDocument/rename", "textDocument/hover", "textDocument/definition", "textDocument/references", "textDocument/documentSymbol", "textDocument/semanticTokens/full", "textDocument/documentHighlight"][..]).to_string();
+                        let (l2, c2, pk2) = gen_position(&mut rng, cur.as_deref(), None);
+                        let extra2 = if kind2 == "textDocument/rename" { rng.pick(&["zap", "renamed", "x"][..]).to_string() } else { String::new() };
+                        let e2 = Ev::Req { kind: kind2, file: file.clone(), line: l2, col: c2, extra: extra2, pos_kind: pk2 };
+                        past_requests.push(e2.clone());
+                        events.push(e2);
+                    }
+                }
             }
             1 | 2 | 3 => {
                 let open: Vec<String> = buffers.keys().cloned().collect();
